@@ -140,6 +140,7 @@ func (_this *BuilderEventReceiver) OnNegativeInt(value uint64) {
 	}
 	bi := big.Int{}
 	bi.SetUint64(value)
+	bi.Neg(&bi)
 	_this.OnBigInt(&bi)
 }
 func (_this *BuilderEventReceiver) OnInt(value int64) {
